@@ -82,7 +82,16 @@ type customErr struct{ msg string }
 
 func (e customErr) Error() string { return e.msg }
 
-var panicKinds = []string{"string", "error", "int", "nil", "struct", "customerr", "nilderef", "index", "mapwrite", "typeassert", "divzero", "closedchan", "slicebounds"}
+var panicKinds = []string{"string", "error", "int", "nil", "struct", "customerr", "nilderef", "index", "mapwrite", "typeassert", "divzero", "closedchan", "slicebounds",
+	"typed-nil-error", "nil-stringer", "error-whose-Error-panics", "func-value", "nested-panic-error"}
+
+type brokenStringer struct{ p *custom }
+
+func (b *brokenStringer) String() string { return b.p.Why }
+
+type brokenError struct{}
+
+func (brokenError) Error() string { panic("boom-inside-Error") }
 
 func Boom(kind string) (string, error) {
 	var m map[string]int
@@ -102,6 +111,17 @@ func Boom(kind string) (string, error) {
 		panic(custom{7, "boom-struct"})
 	case "customerr":
 		panic(customErr{"boom-custom"})
+	case "typed-nil-error":
+		var pe *os.PathError
+		panic(error(pe))
+	case "nil-stringer":
+		panic(&brokenStringer{})
+	case "error-whose-Error-panics":
+		panic(brokenError{})
+	case "func-value":
+		panic(func() {})
+	case "nested-panic-error":
+		panic(core.NewPanicError(core.NewPanicError("boom-nested")))
 	case "nilderef":
 		return p.Why, nil
 	case "index":
